@@ -463,23 +463,40 @@ func runC14(t *testing.T, rep *mc.Reporter) {
 	}
 	idx := 0
 	// ---- cluster variant: two parallel lanes, completion order across lanes is explored
-	laneSeqs := [][]int{{0, 1}, {1, 0, 1}}
+	laneSeqs := [][]int{{1, 0}}
 	cbound, ccrashes := 1, 1
 	if tier == "thorough" {
-		laneSeqs = append(laneSeqs, []int{0, 1, 0}, []int{0, 0, 1}, []int{0, 1, 1, 0})
+		laneSeqs = append(laneSeqs, []int{0, 1}, []int{1, 0, 1}, []int{0, 1, 0}, []int{0, 0, 1}, []int{0, 1, 1, 0})
 		cbound, ccrashes = 2, 1
 	}
+	type cplan struct {
+		lanes []int
+		soft  bool
+		bound int
+	}
+	var cplans []cplan
 	for _, ls := range laneSeqs {
+		cplans = append(cplans, cplan{ls, false, cbound})
+	}
+	// in-process restarts (same RedisOutput): stop by lost connections, then StartPoint + Send again
+	cplans = append(cplans, cplan{[]int{1, 0}, true, 2})
+	if tier == "thorough" {
+		cplans = append(cplans, cplan{[]int{1, 0, 1}, true, 2}, cplan{[]int{0, 1, 0}, true, 2})
+	}
+	for _, cp := range cplans {
 		idx++
 		if idx%nshards != shard || budget.Expired() {
 			continue
 		}
-		cscn := c14cScenario{Lanes: ls, Cfg: biCfg{"parallel", 2}, MaxCrashes: ccrashes, Idle: 1, Cluster: true}
-		view := c14Scenario{Cfg: biCfg{"cluster-parallel", 2}, MaxCrashes: ccrashes, Idle: 1}
-		for _, l := range ls {
+		cscn := c14cScenario{Lanes: cp.lanes, Cfg: biCfg{"parallel", 2}, MaxCrashes: ccrashes, Idle: 1, Cluster: true, Soft: cp.soft}
+		if cp.soft {
+			cscn.MaxCrashes, cscn.Idle = 0, 0
+		}
+		view := c14Scenario{Cfg: biCfg{"cluster-parallel", 2}, MaxCrashes: cscn.MaxCrashes, Idle: cscn.Idle}
+		for _, l := range cp.lanes {
 			view.Syms = append(view.Syms, fmt.Sprintf("lane%d", l))
 		}
-		mc.RunScenario(rep, cscn, cbound, budget, func(ch *mc.Chooser) mc.Result {
+		mc.RunScenario(rep, cscn, cp.bound, budget, func(ch *mc.Chooser) mc.Result {
 			rec, mach := c14cExec(t, cscn, ch)
 			if mach != "" {
 				return mc.Result{Verdict: "machinery", Clause: mach}
